@@ -928,6 +928,8 @@ def gen_join(g):
         t = tight_scenario(g, l, r, measure, t)
         if measure == 'OVERLAP':
             t = int(t)
+    if measure == 'EDIT_DISTANCE' and rng.random() < 0.3:
+        ed_tight_scenario(g, l, r, t)
     if op.get('comp_op') == '=' and measure not in ('EDIT_DISTANCE',
                                                     'OVERLAP'):
         t = rng.choice([0.5, 1.0, 0.25, 0.75, 0.2, 0.4, 0.6, 0.8, t])
@@ -997,6 +999,50 @@ def attrs_for_tok(g, tokname, l, r):
     return l['v'], r['v']
 
 
+def ed_tight_scenario(g, lmeta, rmeta, threshold):
+    """Plant string pairs whose edit distance is at (or just above) the
+    threshold, built from strings with runs of one character (repeated
+    q-grams): the boundary cases of the edit-distance bounds."""
+    rng = g.rng
+    chars = g.chars if len(g.chars) >= 2 else 'ab'
+    t = int(threshold)
+
+    def runs():
+        out = []
+        for _ in range(rng.randint(1, 3)):
+            out.append(rng.choice(chars) * rng.randint(1, 4))
+        return ''.join(out)
+
+    def edit(s, k):
+        s = list(s)
+        for _ in range(k):
+            x = rng.random()
+            pos = rng.choice([0, len(s)]) if rng.random() < 0.5 else \
+                rng.randint(0, len(s))
+            if x < 0.5 or not s:
+                s.insert(pos, rng.choice(chars))
+            elif x < 0.8:
+                s[min(pos, len(s) - 1)] = rng.choice(chars)
+            else:
+                s.pop(min(pos, len(s) - 1))
+        return ''.join(s)
+
+    lvals, rvals = [], []
+    for _ in range(rng.randint(1, 3)):
+        x = runs()
+        lvals.append(x)
+        rvals.append(edit(x, t))
+        if rng.random() < 0.5:
+            rvals.append(edit(x, t + 1))
+    if rng.random() < 0.5:
+        lvals, rvals = rvals, lvals
+    lk = add_rows(g, lmeta, lvals, 's')
+    rk = add_rows(g, rmeta, rvals, 's')
+    g.last_tight = {'lkey': lk[0], 'rkey': rk[0], 'ls': lvals[0],
+                    'rs': rvals[0]}
+    return g.last_tight
+
+
 def maybe_tight_filter(g, fspec, l, r):
     """Plant a boundary pair for this (fresh) filter.  Returns the planted
     pair or None."""
@@ -1010,6 +1056,11 @@ def maybe_tight_filter(g, fspec, l, r):
         t = tight_scenario(g, l, r, m, fspec['threshold'])
         fspec['threshold'] = int(t) if m == 'OVERLAP' else t
         return g.last_tight
+    if fspec['kind'] != 'OverlapFilter' and m == 'EDIT_DISTANCE' and \
+            g.case['tokenizers'][fspec['tokenizer']]['kind'] == 'qgram' and \
+            rng.random() < max(g.prof['tight'], 0.3) and \
+            not fspec.get('_used'):
+        return ed_tight_scenario(g, l, r, fspec['threshold'])
     return None
 
 
